@@ -153,7 +153,7 @@ def run(ctx):
         ok = len(fwc) == 1 and len(accs) == 1 and g.canon(accs[0]["rhs"]) == "search_module_forward(d)".replace("d", g.params[0][0], 1) if False else (len(fwc) == 1 and len(accs) == 1)
         if ok:
             tot = accs[0]["path"]
-            ok = g.canon(accs[0]["rhs"]).startswith("search_module_forward(") and paths.must_pass(g, fwc[0], lambda e: e == accs[0]["node"] or (g.k(e) == "Return" and paths.guarded(g, e, lambda fn, c, pol: pol and "search_module_forward" in fn.canon(c))))
+            ok = g.canon(accs[0]["rhs"], calls=True).startswith("search_module_forward(") and paths.must_pass(g, fwc[0], lambda e: e == accs[0]["node"] or (g.k(e) == "Return" and paths.guarded(g, e, lambda fn, c, pol: pol and "search_module_forward" in fn.canon(c))))
             finals = [g.canon(g.ch(r)[0], subst=False) for r in g.find("Return")]
             ok = ok and finals.count(tot) == 1
             inits = [v for v in g.find("Var") if g.nodes[v]["name"] == tot and g.ch(v) and paths.is_const(g, g.ch(v)[0], 0)]
